@@ -180,7 +180,7 @@ CLAIMED["C08"] = {
     "text": "Facets of well-formedness proved on the real code for all inputs (Verus): LinearizationContext::extract_coeffs returns exactly one coefficient per variable of the model's variable list, in that order, each the coefficient "
             "stored in the linear form or 0 and all finite when the form is finite; declaring an auxiliary keeps the domain's key set well-formed; queued constraints are finite (c_fin is a precondition of add_constraint and is discharged at every call site in the proved arms); "
             "every proved arm of Exp::linearize returns a finite linear form or an error, and the exact Abs lowering returns the missing-bounds error instead of a constant when the operand's range is not finite. "
-            "The row-name de-duplication loop of Linearizer::linearize (a statement slice lifted verbatim from the function) is proved to leave non-empty names pairwise distinct, to keep the first use of every user-written name, to keep unnamed rows unnamed and to give a renamed row a name no user wrote. "
+            "The set of user-written row names is built as exactly the non-empty names of the rows (slice source_names_of, rule R67), and the row-name de-duplication loop of Linearizer::linearize (a statement slice lifted verbatim from the function) is proved to leave non-empty names pairwise distinct, to keep the first use of every user-written name, to keep unnamed rows unnamed and to give a renamed row a name no user wrote. "
             "The final assembly is proved as two more slices (U08.asm): the position table maps the i-th variable name to i (for a duplicate-free list), and row k of the model is the named row k laid out by that table - one entry per position, the named coefficient where the row has one, 0 elsewhere; comparison, right-hand side and name carried over; "
             "The variable list and the domain of the compiled model are proved too (U08.vars, with Linearizer::used_variables): the list holds exactly the used variables of the context, each once, sorted (sort and contains on Vec<String> through a trusted stub), and the domain keeps exactly the entries of the listed variables, unchanged - the first claim of the property. "
             "A tiling guard keeps every other top-level statement of Linearizer::linearize listed. "
